@@ -91,7 +91,13 @@ def main():
             ok2, how2 = apply_patch("/repo", patch)
             if ok2:
                 t0 = time.time()
+                evf = os.path.join(V, "evidence", "%s.json" % prop)
+                saved = open(evf).read() if os.path.exists(evf) else None     # the committed evidence must describe the UNCHANGED tree
                 rcc, outc = sh("./vcheck %s --tier quick" % prop, cwd=V, timeout=7200)
+                if os.path.exists(evf):
+                    shutil.copy(evf, os.path.join(V, "seeded", sid + ".evidence.json") if os.path.isdir(os.path.join(V, "seeded")) else evf)
+                if saved is not None:
+                    open(evf, "w").write(saved)
                 rec["check_exit"] = rcc
                 rec["check_wall_s"] = round(time.time() - t0, 1)
                 viol = [l for l in outc.splitlines() if l.startswith("VIOLATION")]
@@ -103,7 +109,7 @@ def main():
                 rec["n_obligations_refuted"] = len(obl)
                 rec["n_bounded_cases"] = len(bnd)
                 rec["known_lines"] = len([l for l in outc.splitlines() if l.startswith("KNOWN-FINDING")])
-                rec["other_lines"] = [l for l in outc.splitlines() if l.startswith(("TOOL-LIMIT", "UNDECIDED", "CHECKER-ERROR", "SOLVER-ERROR"))][:4]
+                rec["other_lines"] = [l for l in outc.splitlines() if l.startswith(("TOOL-LIMIT", "NOTE tool limit", "UNDECIDED", "CHECKER-ERROR", "SOLVER-ERROR"))][:4]
                 rec["ran"].append("git -C /repo apply; ./vcheck %s --tier quick: exit %d; git -C /repo checkout -- ." % (prop, rcc))
             sh("git -C /repo checkout -- .")
             rec["status"] = "caught" if rec.get("check_exit") == 1 else ("not caught (exit %s)" % rec.get("check_exit"))
